@@ -1037,6 +1037,14 @@ impl Server {
                                 "COMMIT" | "ROLLBACK" => {
                                     self.in_transaction = false;
                                 }
+
+                                // The client dropped every prepared statement of the session,
+                                // the ones we prepared included.
+                                "DEALLOCATE ALL" | "DISCARD ALL" => {
+                                    if let Some(cache) = &mut self.prepared_statement_cache {
+                                        cache.clear();
+                                    }
+                                }
                                 _ => (),
                             }
                         }
